@@ -566,31 +566,42 @@ class AttributeCollection(MutableMapping[int, Attribute]):
             self.add(cached, key)
             return
 
-        len2 = len(as2path.as_seq)
-        len4 = len(as4path.as_seq)
+        # RFC 6793 section 4.2.3: AS_SEQUENCE counts one per AS, AS_SET counts one, confederation
+        # segments count nothing.  If AS_PATH is the shorter one AS4_PATH is ignored, otherwise the
+        # leading (AS_PATH length - AS4_PATH length) ASes of AS_PATH, which OLD speakers prepended,
+        # are put in front of AS4_PATH.  Flattening both paths into one sequence and one set lost
+        # those leading ASes as soon as a set was involved and reordered the segments.
+        def path_length(path: AS2Path) -> int:
+            total = 0
+            for segment in path.aspath:
+                if isinstance(segment, SEQUENCE):
+                    total += len(segment)
+                elif isinstance(segment, SET):
+                    total += 1
+            return total
 
-        # RFC 4893 section 4.2.3
-        if len2 < len4:
-            as_seq = as2path.as_seq
+        missing = path_length(as2path) - path_length(as4path)
+
+        segments: list[Any] = []
+        if missing < 0:
+            segments = list(as2path.aspath)
         else:
-            as_seq = as2path.as_seq[:-len4]
-            as_seq.extend(as4path.as_seq)
-
-        len2 = len(as2path.as_set)
-        len4 = len(as4path.as_set)
-
-        if len2 < len4:
-            as_set = as4path.as_set
-        else:
-            as_set = as2path.as_set[:-len4]
-            as_set.extend(as4path.as_set)
-
-        # Build segments from merged ASN lists
-        segments: list[SET | SEQUENCE] = []
-        if as_seq:
-            segments.append(SEQUENCE(as_seq))
-        if as_set:
-            segments.append(SET(as_set))
+            for segment in as2path.aspath:
+                if missing <= 0:
+                    break
+                if isinstance(segment, SEQUENCE):
+                    segments.append(SEQUENCE(segment[:missing]))
+                    missing -= len(segments[-1])
+                elif isinstance(segment, SET):
+                    segments.append(segment)
+                    missing -= 1
+                else:
+                    segments.append(segment)
+            for segment in as4path.aspath:
+                if segments and isinstance(segment, SEQUENCE) and isinstance(segments[-1], SEQUENCE):
+                    segments[-1] = SEQUENCE(list(segments[-1]) + list(segment))
+                else:
+                    segments.append(segment)
         aspath = AS2Path.make_aspath(segments)
         self.add(aspath, key)
 
